@@ -584,6 +584,8 @@ def check_sites(ctx, c):
                          % (k['kind'], call['pred'], real, desc), k, {'sent_bytes': real, 'predicted_for_sent': call['pred']}, 'size_upper_bound')
                 try:        # the encoder at the use site: the datagram is OSC 1.0 and carries the arguments of the call
                     v = pyval(call['args'])
+                    if has_noslash(v):          # guard of osc10_agrees: addresses begin with '/'
+                        continue
                     exp = expected_of(v if call['method'] == 'send_msg' else v, iter(call['tags']))
                     if not same(osc10.decode(bytes.fromhex(d)), exp):
                         raise osc10.Osc10Error('decodes to different values')
